@@ -900,6 +900,25 @@ def gen_long(chk, n_ref, n_hyp):
     return cases
 
 
+def gen_block(chk, n):
+    """size-dependent code paths at block boundaries (see props.c01.gen_block): reference / hypothesis widths at and next to
+    powers of two, the first pair filling the padded width with a hypothesis that is an edited copy of its reference (the
+    best alignment runs down the diagonal to the last cell), unequal costs (the mistakes path)."""
+    rng = chk.rng
+    cases = []
+    for c in base.gen_block(chk, n):
+        ci, cd = rng.randint(1, 6), rng.randint(1, 6)
+        costs = [ci, cd, min(12, max(1, ci + cd + rng.choice([-1, 1, -2])))]
+        while len(set(costs)) == 1:
+            costs = _rand_costs(rng)
+        api = "er" if rng.random() < 0.7 else "prefix"
+        c.pop("long", None)
+        c.update(api=api, costs=costs, exclude_last=(api == "prefix" and rng.random() < 0.5), defaults=False, slow=True,
+                 stream="block-boundary")
+        cases.append(c)
+    return cases
+
+
 def gen_cases(chk):
     cases = gen_exhaustive(chk)
     for c in load_corpus("C02"):
@@ -916,6 +935,7 @@ def gen_cases(chk):
     cases += gen_entry_layout(chk, 3000 if thorough else 220, 600 if thorough else 60)
     cases += gen_numeric(chk, 1200 if thorough else 100)
     cases += gen_long(chk, 70 if thorough else 16, 35 if thorough else 8)
+    cases += gen_block(chk, 36 if thorough else 10)
     return [c for c in cases if in_space(c)]
 
 
@@ -999,6 +1019,29 @@ def _pair_spec_term(case, out, n):
             f"{cl([_q(x) for x in col])}")
 
 
+def _pair_range_violation(case, out, n):
+    """error_rate only (one value per pair): None when the value is the count k (norm: the float32 quotient k / |ref|, or
+    the empty-reference convention) of some k between the fewest and the most edits among minimum-cost alignments."""
+    if case["api"] != "er":
+        return None
+    e = _eff(case)
+    a = _cut(case["ref"][n], e["eos"], e["include_eos"])
+    b = _cut(case["hyp"][n], e["eos"], e["include_eos"])
+    try:
+        v = Fraction(_col_of(case, out, n)[0])
+    except Exception:
+        return None
+    _, lo, hi = _lev_tables(a, b, *e["costs"])
+    if e["norm"]:
+        if not a:
+            want = Fraction(0 if not b else 1)
+            return None if v == want else f"empty reference: reported {float(v)}, convention says {int(want)}"
+        ok = any(v == _f32div(k, len(a)) for k in range(lo, hi + 1))
+        return None if ok else (f"reported {float(v)} = {float(v) * len(a):.4f} / {len(a)}; optimal alignments have "
+                                f"{lo}..{hi} edits")
+    return None if (v.denominator == 1 and lo <= v <= hi) else f"reported {float(v)}; optimal alignments have {lo}..{hi} edits"
+
+
 def judge_long(chk, case, out):
     """A batch wider than 255: C02.Spec's set-valued recursion is not evaluable on the long pair; the short pairs of the
     batch are judged by the spec on their canonicalised columns (the property: a pair's value depends on nothing else)."""
@@ -1012,6 +1055,19 @@ def judge_long(chk, case, out):
     wrong = [n for (n, _), ok in zip(idx, res) if not ok]
     rec["pairs_rejected_by_spec"] = wrong
     rec["pairs_judged_by_spec"] = [n for n, _ in idx]
+    if not wrong:
+        # the pairs the spec's recursion cannot evaluate: a NECESSARY condition of the property, polynomial to compute -
+        # the reported count lies between the fewest and the most edits of the minimum-cost alignments
+        # (c02_error_rate_within_min_max is the model-side theorem; here it is applied to the implementation's value)
+        judged = {n for n, _ in idx}
+        out_of_range = [(n, w) for n in range(len(case["ref"])) if n not in judged
+                        for w in [_pair_range_violation(case, out, n)] if w]
+        if out_of_range:
+            rec["pairs_outside_min_max_edits"] = [{"pair": n, "why": w} for n, w in out_of_range]
+            rec["what"] = ("pair(s) %s of a wide batch report a value that is not between the fewest and the most edits of "
+                           "the pair's minimum-cost alignments (python DP over the pair's columns cut at eos): %s"
+                           % ([n for n, _ in out_of_range], out_of_range[0][1]))
+            return rec, False
     if wrong:
         rec["what"] = ("pair(s) %s of a batch wider than 255 report a value that is not the edit count of any minimum-cost "
                        "alignment of the pair (C02.Spec on the pair's columns cut after eos)" % wrong)
